@@ -100,7 +100,7 @@ func genSession(t *rapid.T, o sessOpts) sessCase {
 			kinds = append(kinds, "cpub", "cpub", "cpub")
 		}
 		if o.brokerPublishes {
-			kinds = append(kinds, "bpub", "bpub", "bpub")
+			kinds = append(kinds, "bpub", "bpub", "bpub", "bpub-races-register")
 		}
 		if o.scriptedSuback && len(subMids) > 0 {
 			kinds = append(kinds, "suback", "suback")
@@ -118,6 +118,19 @@ func genSession(t *rapid.T, o sessOpts) sessCase {
 		switch kind {
 		case "register":
 			sc.Steps = append(sc.Steps, gwgen.SN(gwgen.Register(rapid.SampledFrom(plainNames).Draw(t, "name"), mid)))
+		case "bpub-races-register":
+			// a broker PUBLISH and the client's own REGISTER of the same name hit the
+			// gateway at the same instant (its two receive loops handle them concurrently)
+			name := rapid.SampledFrom(plainNames).Draw(t, "name")
+			bp := gwgen.MQ(gwgen.BPublish(name, byte(rapid.IntRange(0, 2).Draw(t, "qos")), mid, genPayload(t), rapid.Bool().Draw(t, "retain"), false))
+			rg := gwgen.SN(gwgen.Register(name, rapid.SampledFrom(msgIDPool).Draw(t, "regmid")))
+			if rapid.Bool().Draw(t, "register_first") {
+				rg.NoWait = true
+				sc.Steps = append(sc.Steps, rg, bp)
+			} else {
+				bp.NoWait = true
+				sc.Steps = append(sc.Steps, bp, rg)
+			}
 		case "register-new":
 			nextName++
 			sc.Steps = append(sc.Steps, gwgen.SN(gwgen.Register(fmt.Sprintf("n/%d", nextName), mid)))
@@ -440,7 +453,7 @@ func TestC01(t *testing.T) {
 func TestC02(t *testing.T) {
 	vf.Check(t, vf.Prop[sessCase]{
 		ID: "C02", Name: "broker-publish-resolvable", Bubble: true,
-		Rule: "connected session with a cooperative scripted client (accepts REGISTERs, completes QoS 1/2), predefined maps with shadowing between the client's entry and '*', and broker PUBLISH steps on short names, predefined names (own, '*'-only, shadowed), registered names, names introduced by SUBACK and brand-new names (sometimes two at the same instant), QoS 0-2, retain, payload <= 7168. Non-trivial = the topic needed a REGISTER, or is predefined with an ID defined for both the client and '*'; distinct by script.",
+		Rule: "connected session with a cooperative scripted client (accepts REGISTERs, completes QoS 1/2), predefined maps with shadowing between the client's entry and '*', and broker PUBLISH steps on short names, predefined names (own, '*'-only, shadowed), registered names, names introduced by SUBACK and brand-new names (sometimes two at the same instant, sometimes at the same instant as the client's own REGISTER of that name, in either order), QoS 0-2, retain, payload <= 7168. Non-trivial = the topic needed a REGISTER, or is predefined with an ID defined for both the client and '*'; distinct by script.",
 		Assumptions: []string{"only deliveries to an active client are judged (sleep is C11)", "the client resolves IDs only from its own knowledge: short decoding, the shared predefined configuration, REGISTERs it accepted, REGACKs/SUBACKs it received"},
 		Gen: func(t *rapid.T) sessCase {
 			return genSession(t, sessOpts{brokerPublishes: true, maxSteps: 10})
